@@ -110,6 +110,9 @@ pub fn chain(d: u64) {
     RUN_CHAIN.store(crate::res::mix(c, d), std::sync::atomic::Ordering::Relaxed);
 }
 
+/// Set by worker processes of engine R (see dfamily::gen_cfg).
+pub static SMALL_PLANS: std::sync::atomic::AtomicBool = std::sync::atomic::AtomicBool::new(false);
+
 /// Deadline of the current worker (ms since the epoch); long scenarios stop between runs.
 pub static DEADLINE_MS: std::sync::atomic::AtomicU64 = std::sync::atomic::AtomicU64::new(u64::MAX);
 
@@ -131,6 +134,7 @@ pub fn cmd_worker(a: &[String]) {
     let maxk: u64 = a[7].parse().unwrap();
     let core: usize = a[8].parse().unwrap();
     DEADLINE_MS.store(deadline.saturating_add(1500), std::sync::atomic::Ordering::Relaxed);
+    SMALL_PLANS.store(cfg!(feature = "real"), std::sync::atomic::Ordering::Relaxed);
     if !cfg!(feature = "real") {
         pin_to_core(core);
     }
